@@ -6,9 +6,11 @@ package main
 // one flat, prefix-coded list of items (an item is a list of strings); blocks are closed by ["end"],
 // an `if` may have an ["else"] part.  Expressions and conditions are prefix-coded inside an item.
 //
-// The expression productions (`expr`, `exprList`, `ident`, `rowCount`, `sortTerm`) and the cursor
-// primitives (`next`, `prev`, `split`, `splitSemi`, `endSplit`) are NOT translated here: a call of one
-// of them is an item ["call", recv, method, …] whose meaning Model/ParseIR.lean takes from the model.
+// The expression productions (`expr`, `exprList`, `ident`) and the cursor primitives (`next`, `prev`,
+// `split`, `splitSemi`, `endSplit`) are NOT translated here: a call of one of them is an item
+// ["call", recv, method, …] whose meaning Model/ParseIR.lean takes from the model.  `sortTerm` and
+// `rowCount` are translated (units of their own, Props/C07OperatorIRTerm.lean); where an operator method
+// calls them the call is an item like any other.
 //
 // statements
 //
@@ -18,6 +20,7 @@ package main
 //	["vardecl", v, T]                      var v T
 //	["newparser", v, q]                    v := &parser{source: q, tokens: Scan(q)}
 //	["mapok", v, M, E…]                    _, v := M[E]                 (M a package-level set)
+//	["astype", T, n, L1…Ln, E…]            L1, L2 := E.(*T)             (comma-ok type assertion; T = BasicLit)
 //	["msgonly", what, v]                   a statement whose only effect is on the variable v, and v is
 //	                                       used in message arguments only ("def": v := maps.Keys(M); "sort": slices.Sort(v))
 //	["if", C…] … [["else"] …] ["end"]
@@ -34,7 +37,9 @@ package main
 // targets L:  blank | def v | set v | fset v f (v.f = …) | setpos P (P.pos = …)
 // A `switch tag { case a, b: A; default: D }` whose tag is a field of a variable and whose bodies contain
 // neither `fallthrough` nor a `break` of the switch is emitted as the equivalent if-else chain
-// (["if", "or", "eq", tag, a, "eq", tag, b] A ["else"] D ["end"]).
+// (["if", "or", "eq", tag, a, "eq", tag, b] A ["else"] D ["end"]).  A switch without a tag
+// (`switch { case C1, C2: A; default: D }`) is the same chain over the case conditions, and a switch with an
+// initialiser (`switch init; tag {…}`) is ["scope"], init, the chain, ["end"].
 //
 // expressions E
 //
@@ -47,7 +52,8 @@ package main
 //
 // conditions C
 //
-//	eq E E | ne E E | not C | and C C | or C C | isnf E (isNotFound(E)) | truth E | more P (P.pos < len(P.tokens))
+//	eq E E | ne E E | not C | and C C | or C C | isnf E (isNotFound(E)) | truth E | more P (P.pos < len(P.tokens)) |
+//	isinteger E (E.IsInteger(), E a *BasicLit)
 //
 // Message texts and the arguments of message formats are not part of the IR (they must be free of side
 // effects: variables, fields, formatToken, strings.Join, a Token literal).  Any other statement, expression
@@ -440,6 +446,12 @@ func (t *ptrans) cond(e ast.Expr) ([]string, error) {
 			}
 			return append([]string{"isnf"}, a...), nil
 		}
+		// lit.IsInteger() with lit a *BasicLit
+		if sel, ok := x.Fun.(*ast.SelectorExpr); ok && x.Ellipsis == token.NoPos && len(x.Args) == 0 && sel.Sel.Name == "IsInteger" {
+			if v, ty, ok := t.varName(sel.X); ok && ty == "*BasicLit" && t.ex.funcDecl("parser", "*BasicLit", "IsInteger") != nil {
+				return []string{"isinteger", "var", v}, nil
+			}
+		}
 	case *ast.BinaryExpr:
 		switch x.Op {
 		case token.LAND, token.LOR:
@@ -727,6 +739,38 @@ func (t *ptrans) assign(as *ast.AssignStmt, lastInBlock bool) ([]wItem, error) {
 			return []wItem{append(wItem{"mapok", okv.Name, m.Name}, k...)}, nil
 		}
 	}
+	// lit, ok := x.(*BasicLit)
+	if ta, ok := rhs.(*ast.TypeAssertExpr); ok {
+		star, isStar := ta.Type.(*ast.StarExpr)
+		if !define || len(as.Lhs) != 2 || ta.Type == nil || !isStar || !isIdent(star.X, "BasicLit") {
+			return nil, t.errf(as, "type assertion not of the shape `v, ok := x.(*BasicLit)`")
+		}
+		if _, _, shadow := t.varName(star.X); shadow {
+			return nil, t.errf(as, "BasicLit is shadowed")
+		}
+		x, xty, ok := t.varName(ta.X)
+		if !ok || xty != "Expr" {
+			return nil, t.errf(as, "type assertion on something that is not a variable of type Expr")
+		}
+		var targets [][]string
+		for _, l := range as.Lhs {
+			tg, err := t.target(l, define, "")
+			if err != nil {
+				return nil, err
+			}
+			if tg[0] != "def" && tg[0] != "blank" {
+				return nil, t.errf(as, "type assertion assigns to an existing variable")
+			}
+			targets = append(targets, tg)
+		}
+		head := wItem{"astype", "BasicLit", "2"}
+		for _, tg := range targets {
+			head = append(head, tg...)
+		}
+		head = append(head, "var", x)
+		t.declareTargets(as.Lhs, targets, []string{"*BasicLit", "bool"})
+		return []wItem{head}, nil
+	}
 	if len(as.Lhs) != 1 {
 		return nil, t.errf(as, "assignment not of a known shape")
 	}
@@ -986,21 +1030,37 @@ func (t *ptrans) stmt(st ast.Stmt, last bool) ([]wItem, error) {
 }
 
 func (t *ptrans) switchStmt(s *ast.SwitchStmt) ([]wItem, error) {
-	if s.Init != nil || s.Tag == nil {
-		return nil, t.errf(s, "switch without a tag or with an initialiser")
-	}
-	sel, ok := s.Tag.(*ast.SelectorExpr)
-	if !ok {
-		return nil, t.errf(s, "switch tag is not a field of a variable")
-	}
-	if _, _, ok := t.varName(sel.X); !ok {
-		return nil, t.errf(s, "switch tag is not a field of a variable")
-	}
-	tag, err := t.expr(s.Tag)
-	if err != nil {
-		return nil, err
-	}
 	var out []wItem
+	if s.Init != nil {
+		// switch init; tag { … }  =  { init; switch tag { … } }
+		as, ok := s.Init.(*ast.AssignStmt)
+		if !ok {
+			return nil, t.errf(s, "switch with an initialiser that is not an assignment")
+		}
+		t.push()
+		defer t.pop()
+		its, err := t.assign(as, false)
+		if err != nil {
+			return nil, err
+		}
+		out = append(out, wItem{"scope"})
+		out = append(out, its...)
+	}
+	var tag []string
+	if s.Tag != nil {
+		sel, ok := s.Tag.(*ast.SelectorExpr)
+		if !ok {
+			return nil, t.errf(s, "switch tag is not a field of a variable")
+		}
+		if _, _, ok := t.varName(sel.X); !ok {
+			return nil, t.errf(s, "switch tag is not a field of a variable")
+		}
+		var err error
+		tag, err = t.expr(s.Tag)
+		if err != nil {
+			return nil, err
+		}
+	}
 	depth := 0
 	var def *ast.CaseClause
 	for i, c := range s.Body.List {
@@ -1017,18 +1077,28 @@ func (t *ptrans) switchStmt(s *ast.SwitchStmt) ([]wItem, error) {
 		}
 		var cond []string
 		for j, v := range cc.List {
-			ve, err := t.expr(v)
-			if err != nil {
-				return nil, err
-			}
-			if ve[0] != "str" && ve[0] != "kind" {
-				return nil, t.errf(v, "case label is not a constant")
-			}
-			eq := append(append([]string{"eq"}, tag...), ve...)
-			if j < len(cc.List)-1 {
-				cond = append(append(cond, "or"), eq...)
+			var one []string
+			if s.Tag != nil {
+				ve, err := t.expr(v)
+				if err != nil {
+					return nil, err
+				}
+				if ve[0] != "str" && ve[0] != "kind" {
+					return nil, t.errf(v, "case label is not a constant")
+				}
+				one = append(append([]string{"eq"}, tag...), ve...)
 			} else {
-				cond = append(cond, eq...)
+				// switch { case C: … }
+				ce, err := t.cond(v)
+				if err != nil {
+					return nil, err
+				}
+				one = ce
+			}
+			if j < len(cc.List)-1 {
+				cond = append(append(cond, "or"), one...)
+			} else {
+				cond = append(cond, one...)
 			}
 		}
 		body, err := t.block(cc.Body)
@@ -1054,6 +1124,9 @@ func (t *ptrans) switchStmt(s *ast.SwitchStmt) ([]wItem, error) {
 		out = append(out, body...)
 	}
 	for i := 0; i < depth; i++ {
+		out = append(out, wItem{"end"})
+	}
+	if s.Init != nil {
 		out = append(out, wItem{"end"})
 	}
 	return out, nil
@@ -1114,7 +1187,7 @@ func (t *ptrans) ifStmt(s *ast.IfStmt) ([]wItem, error) {
 // the translated units, in the order of the task
 var ptUnits = []string{"countOperator", "whereOperator", "takeOperator", "asOperator", "sortOperator", "topOperator",
 	"projectOperator", "extendColumn", "extendOperator", "summarizeColumn", "summarizeOperator", "renderProperty",
-	"renderOperator", "joinOperator", "letStatement", "tabularExpr", "firstParse", "Parse"}
+	"renderOperator", "joinOperator", "letStatement", "tabularExpr", "firstParse", "Parse", "sortTerm", "rowCount"}
 
 func (ex *extractor) parseIR(sb *strings.Builder) error {
 	consts := map[string]bool{}
